@@ -100,6 +100,11 @@ inductive BpData where
   | none
   deriving Repr, DecidableEq
 
+/-- the step waits for the client (its data is an MQTT-SN packet) -/
+def BpData.toClient : BpData → Bool
+  | .sn _ => true
+  | _ => false
+
 inductive TxKind where
   | connect (st : ConnSt) (f : ConnFields)
   | subscribe (topicId : UInt16)
@@ -305,6 +310,10 @@ def retryExpire (g : Gw) (t : Tx) : Gw :=
   match t.kind with
   | .brokerPub q st data snp n =>
     if t.done then g.setTx { t with timer := none }
+    else if g.st = .asleep ∧ data.toClient then
+      -- `SetSuspended(clientAsleep)`: while the client sleeps, a step that waits for the client neither
+      -- retransmits (the packet waits in the buffer) nor counts the elapsed delays
+      g.setTx { t with timer := some (g.now + g.cfg.retryDelay) }
     else if n + 1 > g.cfg.retryCount then
       g.finishTx t.id
     else
